@@ -428,7 +428,7 @@ pub fn parse_stage_name_identifier(parser: &mut Parser) -> Result<Ident, ParserE
                 parser.prev_token();
                 break;
             }
-            Token::RParen => {
+            Token::RParen | Token::SemiColon => {
                 parser.prev_token();
                 break;
             }
